@@ -19,6 +19,10 @@ Template directives (line comments, one per line):
       `const NAME: Felt = Felt::from_hex_unchecked("0x..")` / `felt_hex!("0x..")`  ->
       `exec const NAME: Felt ensures NAME@ == <literal parsed from the repository text> % P`.
 
+  //@hexvec <file> <fn>
+      `fn f() -> Vec<Felt> { vec![Felt::from_hex_unchecked(".."), ..] }` -> contract listing every element
+      (literals parsed from the repository text; the body shape is checked token by token).
+
   //@clone <Type>[,<Type>...]
       generated `impl Clone` with structural postcondition (assumption A-clone).
 
@@ -510,6 +514,36 @@ def build_hexconst(args, features):
     return '\n'.join(out) + '\n'
 
 
+def build_hexvec(args, features):
+    """`pub fn NAME() -> Vec<Felt> { vec![Felt::from_hex_unchecked("0x.."), ...] }` -> trusted-by-construction contract
+    listing every element, literals parsed from the repository text (body shape checked token by token)."""
+    path, name = args[0], args[1]
+    src, rtoks, item = locate(path, 'fn', name, features)
+    lo, hi = item.body
+    body = [t for t in rtoks[lo + 1:hi]]
+    tx = texts(body)
+    if tx[:3] != ['vec', '!', '['] or tx[-1] != ']':
+        raise AssembleError('hexvec %s: body is not a vec![..] literal' % name)
+    inner = body[3:-1]
+    vals = []
+    i = 0
+    unit = ['Felt', '::', 'from_hex_unchecked', '(']
+    while i < len(inner):
+        if texts(inner[i:i + 4]) != unit or inner[i + 4].kind != 'str':
+            raise AssembleError('hexvec %s: unexpected token %r at line %d' % (name, inner[i].text, inner[i].line))
+        vals.append(int(inner[i + 4].text.strip('"'), 16) % P)
+        i += 5
+        if i < len(inner) and is_p(inner[i], ','):
+            i += 1
+        if i >= len(inner) or not is_p(inner[i], ')'):
+            raise AssembleError('hexvec %s: expected ) at line %d' % (name, inner[i - 1].line))
+        i += 1
+        if i < len(inner) and is_p(inner[i], ','):
+            i += 1
+    ens = ['r@.len() == %d' % len(vals)] + ['r@[%d]@ == 0x%xnat' % (k, v) for k, v in enumerate(vals)]
+    return '#[verifier::external_body] pub fn %s() -> (r: Vec<Felt>)\n    ensures\n        %s,\n{ unimplemented!() }\n' % (name, ',\n        '.join(ens))
+
+
 def build_clone(args):
     out = []
     for ty in args[0].split(','):
@@ -616,6 +650,9 @@ def assemble(fragments, features, out_path):
                 i += 1
             elif d == 'hexconst':
                 emit(build_hexconst(rest, features))
+                i += 1
+            elif d == 'hexvec':
+                emit(build_hexvec(rest, features))
                 i += 1
             elif d == 'clone':
                 emit(build_clone(rest))
